@@ -76,7 +76,11 @@ Viol(i) ==
                                                               \/ \E x \in A : \E y \in A : ev.eq[x][y] # ev.eq[y][x]
                                                               \/ \E x \in A : \E y \in A : \E z \in A : ev.eq[x][y] /\ ev.eq[y][z] /\ ~ev.eq[x][z])}
       [] ev.ev = "fp" ->
-            {n \in {"FingerprintIsFunctionOfKey"} : PrevSameKey(i) /\ Log[i - 1].kind = ev.kind /\ Log[i - 1].id # ev.id}
+            \* the previous event of the same key AND kind: directly before, or (sites that log both kinds
+            \* alternately) two lines before
+            {n \in {"FingerprintIsFunctionOfKey"} :
+                 \/ PrevSameKey(i) /\ Log[i - 1].kind = ev.kind /\ Log[i - 1].id # ev.id
+                 \/ i > 2 /\ PrevSameKey(i) /\ PrevSameKey(i - 1) /\ Log[i - 2].kind = ev.kind /\ Log[i - 2].id # ev.id}
       [] ev.ev = "idtext" ->
             {n \in {"NoPanic", "RejectInvalid"} :
                CASE n = "NoPanic" -> ev.panic
